@@ -1313,6 +1313,12 @@ func (pc *PartitionContext) UpdateAllocation(alloc *objects.Allocation) (request
 				zap.Error(err))
 			return false, false, err
 		}
+		// the scheduler might have reserved a node for this ask: it has been placed, the reservation must go
+		if reservedNodeID := app.NodeReservedForAsk(allocationKey); reservedNodeID != "" {
+			if reservedNode := pc.GetNode(reservedNodeID); reservedNode != nil {
+				pc.unReserve(app, reservedNode, existing)
+			}
+		}
 
 		// Increase the queue resource usage at any cost even if ask accommodated earlier based on the old max resources causes usage overflow based on the current max resources now.
 		// In case quota preemption set but not completed, usage would be brought down as part of enforcement through preemption when the already set delay expires.
